@@ -48,7 +48,8 @@ LIT_MACROS = [("N3", "3"), ("N0", "0"), ("BIG", "4294967296"), ("HX", "0x8000000
 FLAG_MACROS = ["FLAG", "OPT_A", "OPT_B"]
 FUNC_MACROS = [("F(a,b)", "((a) + (b))"), ("SQ(x)", "((x) * (x))"), ("ID(x)", "x"), ("G(x)", "F(x, N3)"),
                ("V(x, ...)", "f(x, __VA_ARGS__)"), ("W(...)", "g(__VA_ARGS__)"), ("PAIR(a,b)", "a, b"),
-               ("CALL(fn, ...)", "fn(__VA_ARGS__)"), ("TWICE(x)", "ID(ID(x))"), ("Z()", "zero")]
+               ("CALL(fn, ...)", "fn(__VA_ARGS__)"), ("TWICE(x)", "ID(ID(x))"), ("Z()", "zero"),
+               ("FIRST(a, ...)", "a"), ("REST(a, ...)", "__VA_ARGS__"), ("COUNT3(a, b, c)", "3 a b c")]
 OBJ_MACROS = [("EXPR", "(1 + 2)"), ("NAME", "other_name"), ("CHAIN", "N3"), ("SELF", "SELF + 1")]
 UNDEFINED = ["UNDEF_A", "UNDEF_B"]
 
@@ -111,6 +112,26 @@ def paren(s):
     return s if re.match(r"^[A-Za-z0-9_]+$", s) or re.match(r"^defined\([A-Za-z0-9_]+\)$", s) else "(%s)" % s
 
 
+# Only parentheses protect a comma inside a macro invocation: a comma inside [] or {} (and not inside ()) separates
+# arguments.  The calls below are built so that the number of arguments cpp sees fits the macro (otherwise cpp rejects
+# the whole unit and nothing is compared): a fixed-arity macro gets exactly as many top-level-for-cpp commas as it
+# needs, variadic macros take any number.
+BR1 = ["x[1, 2]", "{1, 2}", "v[i, j]", "m[(a, b), c]", "{(a, b), c}", "f(u)[1, 2]", "{x[1], y}", "p[q{1, 2}]"]   # 1 splitting comma
+BR0 = ["(x[1, 2])", "f({1, 2})", "m[(a, b)]", "{(a, b)}", "(v[i, j], {k, l})"]                                    # none
+BR2 = ["x[1, 2, 3]", "{a, b, c}", "m[i, {j, k}]", "{(a, b), c, d}"]                                                 # 2
+
+
+def bracket_calls(rng, arg):
+    b1, b0, b2 = rng.choice(BR1), rng.choice(BR0), rng.choice(BR2)
+    return [
+        "F(%s)" % b1, "PAIR(%s)" % b1, "F(%s, %s)" % (b0, arg()), "SQ(%s)" % b0, "ID(%s)" % b0, "G(%s)" % b0,
+        "COUNT3(%s, %s)" % (b1, arg()), "COUNT3(%s)" % b2, "COUNT3(%s, %s)" % (arg(), b1),
+        "FIRST(%s, %s)" % (b1, arg()), "FIRST(%s)" % b2, "REST(%s, %s)" % (b1, arg()), "REST(%s, %s)" % (b2, b0),
+        "V(%s, %s)" % (b1, arg()), "V(%s, %s)" % (arg(), b2), "W(%s)" % b1, "W(%s, %s)" % (b2, b1),
+        "CALL(h, %s)" % b1, "CALL(h, %s, %s)" % (b0, b2), "TWICE(%s)" % b0, "FIRST(ID(%s), %s)" % (b0, b1),
+    ]
+
+
 def gen_text(rng, k):
     toks = ["L%d" % k]
     for _ in range(rng.randint(1, 4)):
@@ -126,7 +147,7 @@ def gen_text(rng, k):
                 "V(%s, %s)" % (arg(), arg()), "V(%s, %s, %s)" % (arg(), arg(), arg()),
                 "W(%s)" % arg(), "W(%s, %s, %s)" % (arg(), arg(), arg()), "PAIR(%s, %s)" % (arg(), arg()),
                 "CALL(h, %s, %s)" % (arg(), arg()), "TWICE(%s)" % arg(), "F (%s, %s)" % (arg(), arg()),
-                "Z()"]))
+                "Z()"] + bracket_calls(rng, arg)))
     return " ".join(toks)
 
 
@@ -207,6 +228,28 @@ def gen_case(rng, tier):
         i = rng.randint(0, len(g.lines))
         g.lines.insert(i, rng.choice(["#endif", "#else", "#elif 1", "#if 1"]))
     return NL.join(g.lines)
+
+
+def bracket_fixed_cases():
+    """deterministic: every bracket argument shape through a fixed-arity, a variadic-first and a variadic-rest macro"""
+    pro = ["#define FIRST(a, ...) a", "#define REST(a, ...) __VA_ARGS__", "#define COUNT3(a, b, c) 3 a b c",
+           "#define F(a,b) ((a) + (b))", "#define ID(x) x", "#define W(...) g(__VA_ARGS__)"]
+    cases = []
+    k = 0
+    lines = list(pro)
+    for b in BR1:
+        k += 1
+        lines.append("L%d FIRST(%s, 3) ; REST(%s, 3) ; COUNT3(%s, 9) ; F(%s) ; W(%s)" % (k, b, b, b, b, b))
+    cases.append(NL.join(lines))
+    lines = list(pro)
+    for b in BR0:
+        k += 1
+        lines.append("L%d FIRST(%s, 3) ; REST(%s, 3) ; F(%s, 9) ; ID(%s) ; W(%s)" % (k, b, b, b, b, b))
+    for b in BR2:
+        k += 1
+        lines.append("L%d FIRST(%s) ; REST(%s) ; COUNT3(%s) ; W(%s)" % (k, b, b, b, b))
+    cases.append(NL.join(lines))
+    return cases
 
 
 def fixed_cases():
@@ -379,31 +422,41 @@ def failure_kind(i_obs, s_obs, cpp_stream):
     return None
 
 
-def shrink_lines(D, case, fails, max_rounds=10):
-    """line-deletion shrinking, one batch of candidates per round"""
-    lines = case.split(NL)
+def line_candidates(lines):
+    n = len(lines)
+    cands = []
+    for size in sorted(set([max(1, n // 2), max(1, n // 4), 2, 1]), reverse=True):
+        for i in range(0, n - size + 1, max(1, size // 2) if size > 1 else 1):
+            c = lines[:i] + lines[i + size:]
+            if c and c not in cands:
+                cands.append(c)
+    return cands[:48]
+
+
+def shrink_many(cases_, fails, max_rounds=10):
+    """line-deletion shrinking of several failing units in lock step: one batch of candidates (one run of the library
+    driver, one round of cpp) per round for all of them"""
+    cur = [c.split(NL) for c in cases_]
+    active = list(range(len(cur)))
     for _ in range(max_rounds):
-        n = len(lines)
-        cands = []
-        for size in sorted(set([max(1, n // 2), max(1, n // 4), 2, 1]), reverse=True):
-            for i in range(0, n - size + 1, max(1, size // 2) if size > 1 else 1):
-                c = lines[:i] + lines[i + size:]
-                if c and c not in cands:
-                    cands.append(c)
-        cands = cands[:48]
-        if not cands:
+        if not active:
             break
-        texts = [NL.join(c) for c in cands]
+        texts, owner = [], []
+        for k in active:
+            for c in line_candidates(cur[k]):
+                texts.append(NL.join(c))
+                owner.append((k, c))
+        if not texts:
+            break
         verdicts = fails(texts)
-        nxt = None
-        for c, v in zip(cands, verdicts):
-            if v:
-                nxt = c
-                break
-        if nxt is None:
-            break
-        lines = nxt
-    return NL.join(lines)
+        nxt = {}
+        for (k, c), v in zip(owner, verdicts):
+            if v and k not in nxt:
+                nxt[k] = c
+        for k in nxt:
+            cur[k] = nxt[k]
+        active = [k for k in active if k in nxt]
+    return [NL.join(l) for l in cur]
 
 
 def nontrivial(case):
@@ -428,7 +481,7 @@ def run(run, tier, seed, replay_case=None):
     rng = random.Random(seed * 7919 + 13)
     corpus = C.load_corpus(PROP)
     n = 350 if tier == "quick" else 8000
-    cases = list(corpus) + fixed_cases() + [gen_case(rng, tier) for _ in range(n)]
+    cases = list(corpus) + fixed_cases() + bracket_fixed_cases() + [gen_case(rng, tier) for _ in range(n)]
     if replay_case is not None:
         cases = [replay_case]
     seen = set()
@@ -460,13 +513,19 @@ def run(run, tier, seed, replay_case=None):
     reported = set()
     budget = 5 if tier == "quick" else 16
     groups = {}
+    chosen = []
     for i in sorted(prop_fails, key=lambda i: len(cases[i])):
-        key = re.sub(r"L\d+|\[[^\]]*\]|[0-9]+", "", kinds[i])[:60]
+        # units that show a known finding's construct: one representative per signature is shrunk (the others of
+        # the same kind only if the budget allows), every other kind of failure two per kind
+        pre = sorted(k["signature"] for k in known if SIGNATURES.get(k["signature"], lambda c: False)(cases[i]))
+        kind_key = re.sub(r"L\d+|\[[^\]]*\]|[0-9]+", "", kinds[i])[:60]
+        key = ("kf",) + tuple(pre) + (kind_key,) if pre else kind_key
         groups[key] = groups.get(key, 0) + 1
-        if groups[key] > 2 or budget <= 0:
+        if groups[key] > (1 if pre else 2) or len(chosen) >= budget:
             continue
-        budget -= 1
-        small = shrink_lines(D, cases[i], fails)
+        chosen.append(i)
+    smalls = shrink_many([cases[i] for i in chosen], fails) if chosen else []
+    for i, small in zip(chosen, smalls):
         if small in reported:
             continue
         reported.add(small)
@@ -529,7 +588,8 @@ def run(run, tier, seed, replay_case=None):
                    "hex top-bit), flag, function-like and variadic macros, then nested #if/#ifdef/#ifndef/#elif/#else/#endif "
                    "(depth <= 3) over conditions built from literals, macro names, defined(), ! - && || ?: comparisons and "
                    "arithmetic, with undefined or malformed conditions in dead positions, #define/#undef inside groups, and text "
-                   "lines invoking the macros with non-empty arguments; non-trivial = at least one conditional and one #define; "
+                   "lines invoking the macros with non-empty arguments, including arguments with commas inside [] and {} (which separate "
+                   "arguments) and inside () (which do not), for fixed-arity and variadic macros; non-trivial = at least one conditional and one #define; "
                    "distinct = distinct text")
     pick = [0, len(cases) // 2, len(cases) - 1]
     cov["samples"] = [dict(case=cases[i], impl=I[i], model=R[i], spec=S[i],
